@@ -1,34 +1,45 @@
 import Mdsort.Proofs.ConfLexRT
+import Mdsort.Proofs.ConfWpl
 
 /-!
 # Reading back what `Spec.printBlocks` writes, part 1: the token stream and the small parsers
 
-`Up s ts`: the tokens the parser will see from state `s` are exactly `ts` (written by `Spec.render`),
-the first of them possibly read already as the lookahead.  `RT p v ts0`: from any state whose
-upcoming tokens are `ts0 ++ ts`, `p` returns `v` and leaves `ts` - unless the recursion budget runs
-out first (which the totality theorem excludes for `parseConfig`).
+`Up cx tl s ts`: the tokens the parser will see from state `s` are exactly `ts` (written by `Spec.render`),
+the first of them possibly read already as the lookahead, and what follows them is the text `tl` - ANY
+bytes, empty or starting with a blank (the end of the file when `tl = []`, a defect when the lemmas are used
+to reach a position in a file that is then rejected, Proofs/ConfAnywhere*.lean).  The written tokens hold no
+newline, `cx.nl` is the number of newlines of `tl`: every line number computed while the parser is in the
+written part is 1.  `RT cx tl p v ts0`: from any state whose upcoming tokens are `ts0 ++ ts`, `p` returns `v`
+and leaves `ts` - unless the recursion budget runs out first (which the totality theorem excludes for
+`parseConfig`).  The lemmas are stated for an arbitrary postcondition `NoErr` of the error outcome: no
+diagnostic is reported while the parser reads written tokens.
 -/
 
 namespace Mdsort.Proofs.Conf
 open Mdsort Mdsort.Model Mdsort.Spec
 
-/-- The parser state sits in front of the written tokens `ts`, with lookahead `la`. -/
-structure Strm (s : ParseSt) (la : Option PTok) (ts : List PTok) : Prop where
+/-- The parser state sits in front of the written tokens `ts` followed by the text `tl`, with lookahead `la`. -/
+structure Strm (cx : PCtx) (tl : Bytes) (s : ParseSt) (la : Option PTok) (ts : List PTok) : Prop where
   la_eq : s.la = la.map tkOf
-  rest_eq : s.rest = Spec.render ts
+  rest_eq : s.rest = Spec.render ts ++ tl
   am : s.afterMacro = false
   mac : s.macros = []
-  ok : ∀ t ∈ ts, tokOK t = true
+  ok : ∀ t ∈ ts, lexOK t = true
+  tl_head : ∀ c, tl.head? = some c → c = 32
+  nl_eq : cx.nl = countNl tl
+  tokl : s.tokLine = 1
 
-/-- The upcoming tokens are `ts`. -/
-def Up (s : ParseSt) (ts : List PTok) : Prop :=
-  Strm s none ts ∨ ∃ t ts', ts = t :: ts' ∧ tokOK t = true ∧ Strm s (some t) ts'
+/-- The upcoming tokens are `ts`, then comes `tl`. -/
+def Up (cx : PCtx) (tl : Bytes) (s : ParseSt) (ts : List PTok) : Prop :=
+  Strm cx tl s none ts ∨ ∃ t ts', ts = t :: ts' ∧ lexOK t = true ∧ Strm cx tl s (some t) ts'
 
-theorem Strm.up_none {s : ParseSt} {ts : List PTok} (h : Strm s none ts) : Up s ts := Or.inl h
-theorem Strm.up_some {s : ParseSt} {t : PTok} {ts : List PTok} (h : Strm s (some t) ts) (ht : tokOK t = true) :
-    Up s (t :: ts) := Or.inr ⟨t, ts, rfl, ht, h⟩
+variable {cx : PCtx} {tl : Bytes}
 
-theorem Up.ok {s : ParseSt} {ts : List PTok} (h : Up s ts) : ∀ t ∈ ts, tokOK t = true := by
+theorem Strm.up_none {s : ParseSt} {ts : List PTok} (h : Strm cx tl s none ts) : Up cx tl s ts := Or.inl h
+theorem Strm.up_some {s : ParseSt} {t : PTok} {ts : List PTok} (h : Strm cx tl s (some t) ts) (ht : lexOK t = true) :
+    Up cx tl s (t :: ts) := Or.inr ⟨t, ts, rfl, ht, h⟩
+
+theorem Up.ok {s : ParseSt} {ts : List PTok} (h : Up cx tl s ts) : ∀ t ∈ ts, lexOK t = true := by
   rcases h with h | ⟨t, ts', rfl, ht, h⟩
   · exact h.ok
   · intro x hx
@@ -37,52 +48,21 @@ theorem Up.ok {s : ParseSt} {ts : List PTok} (h : Up s ts) : ∀ t ∈ ts, tokOK
     · exact ht
     · exact h.ok x hx
 
-abbrev NoErr : ParseSt → Prop := fun _ => False
+theorem Up.tokl {s : ParseSt} {ts : List PTok} (h : Up cx tl s ts) : s.tokLine = 1 := by
+  rcases h with h | ⟨_, _, _, _, h⟩ <;> exact h.tokl
+
+theorem Up.mac {s : ParseSt} {ts : List PTok} (h : Up cx tl s ts) : s.macros = [] := by
+  rcases h with h | ⟨_, _, _, _, h⟩ <;> exact h.mac
+
+theorem Up.tl_head {s : ParseSt} {ts : List PTok} (h : Up cx tl s ts) : ∀ c, tl.head? = some c → c = 32 := by
+  rcases h with h | ⟨_, _, _, _, h⟩ <;> exact h.tl_head
+
+theorem Up.nl_eq {s : ParseSt} {ts : List PTok} (h : Up cx tl s ts) : cx.nl = countNl tl := by
+  rcases h with h | ⟨_, _, _, _, h⟩ <;> exact h.nl_eq
+
+variable {NoErr : Nat → ParseSt → Prop}
 
 variable {α : Type} {Q : α → ParseSt → Prop}
-
-/-- `peek` in front of a written token. -/
-theorem wp_peek_up (cx : PCtx) (pf sf : Bool) {Q : Tk → ParseSt → Prop} {s : ParseSt} {t : PTok} {ts : List PTok}
-    (h : Up s (t :: ts)) (hm : modeOK pf sf t = true)
-    (hQ : ∀ s', Strm s' (some t) ts → Q (tkOf t) s') : wp (peek cx pf sf) Q NoErr True s := by
-  have htok : tokOK t = true := h.ok t (by simp)
-  rcases h with h | ⟨t', ts', heq, _, h⟩
-  · unfold wp peek
-    have hla : s.la = none := h.la_eq
-    simp only [hla]
-    obtain ⟨tok, hlex, htk, hmac⟩ := lex_tok t ts pf sf htok hm
-    rw [h.am, h.rest_eq, hlex]
-    simp only [Nat.lt_irrefl, if_false, gt_iff_lt]
-    rw [htk]
-    refine hQ _ ⟨by simp, rfl, hmac, h.mac, fun x hx => h.ok x (by simp [hx])⟩
-  · cases heq
-    unfold wp peek
-    have hla : s.la = some (tkOf t) := h.la_eq
-    simp only [hla]
-    exact hQ s h
-
-/-- `peek` at the end of the written text. -/
-theorem wp_peek_end (cx : PCtx) (pf sf : Bool) {Q : Tk → ParseSt → Prop} {s : ParseSt}
-    (h : Up s []) (hQ : ∀ s', s'.macros = [] → Q .eof s') : wp (peek cx pf sf) Q NoErr True s := by
-  rcases h with h | ⟨t', ts', heq, _, h⟩
-  · unfold wp peek
-    have hla : s.la = none := h.la_eq
-    simp only [hla]
-    rw [h.am, h.rest_eq, render_nil, lex1_nil]
-    simp only [Nat.lt_irrefl, if_false, gt_iff_lt]
-    exact hQ _ h.mac
-  · cases heq
-
-theorem wp_shift_up {Q : Unit → ParseSt → Prop} {s : ParseSt} {t : PTok} {ts : List PTok}
-    (h : Strm s (some t) ts) (hQ : ∀ s', Up s' ts → Q () s') : wp shift Q NoErr True s := by
-  have hsh : shift s = PRes.ok () { s with la := none } := by
-    unfold shift
-    have hla : s.la = some (tkOf t) := h.la_eq
-    simp only [hla]
-    cases t <;> rfl
-  unfold wp
-  rw [hsh]
-  exact hQ _ (Or.inl ⟨rfl, h.rest_eq, h.am, h.mac, h.ok⟩)
 
 /-! The written text has no newline: every node is on line 1. -/
 
@@ -106,18 +86,18 @@ theorem count_digits (n : Nat) : countNl (toString n).toUTF8.toList = 0 := by
   have := hdig 10 h
   revert this; decide
 
-theorem tok_noNl (t : PTok) (h : tokOK t = true) : countNl t.bytes = 0 := by
+theorem tok_noNl (t : PTok) (h : lexOK t = true) : countNl t.bytes = 0 := by
   cases t with
   | kw k => exact kwText_noNl k
   | str b =>
-    have := (strOK_facts (by simpa [tokOK] using h)).2.2.1
+    have := (strLexOK_facts (by simpa [lexOK] using h)).2.2.1
     have hq := count_quote b this
     simp only [countNl] at hq ⊢
     simp [PTok.bytes, List.count_append, hq]
   | int n => exact count_digits n
   | seconds => decide
   | pat p =>
-    simp only [tokOK, patOK, Bool.and_eq_true, List.all_eq_true, bne_iff_ne, ne_eq] at h
+    simp only [lexOK, tokOK, patOK, Bool.and_eq_true, List.all_eq_true, bne_iff_ne, ne_eq] at h
     have hs : List.count 10 p.src = 0 := by
       rw [List.count_eq_zero]
       intro hm
@@ -126,7 +106,7 @@ theorem tok_noNl (t : PTok) (h : tokOK t = true) : countNl t.bytes = 0 := by
     cases p.icase <;> cases p.lcase <;> cases p.ucase <;> decide
   | _ => decide
 
-theorem render_noNl (ts : List PTok) (h : ∀ t ∈ ts, tokOK t = true) : countNl (Spec.render ts) = 0 := by
+theorem render_noNl (ts : List PTok) (h : ∀ t ∈ ts, lexOK t = true) : countNl (Spec.render ts) = 0 := by
   induction ts with
   | nil => rfl
   | cons t ts ih =>
@@ -136,19 +116,85 @@ theorem render_noNl (ts : List PTok) (h : ∀ t ∈ ts, tokOK t = true) : countN
     simp only [countNl] at h1 h2 ⊢
     simp [List.count_cons, List.count_append, h1, h2]
 
-theorem wp_curLine_strm (cx : PCtx) (hnl : cx.nl = 0) {Q : Nat → ParseSt → Prop} {s : ParseSt} {la : Option PTok}
-    {ts : List PTok} (h : Strm s la ts) (hQ : Q 1 s) : wp (curLine cx) Q NoErr True s := by
-  rw [wp_curLine]
+theorem countNl_append (a b : Bytes) : countNl (a ++ b) = countNl a + countNl b := by
+  simp [countNl, List.count_append]
+
+/-- In front of written tokens the lexer stands on line 1. -/
+theorem lineOf_written (ts : List PTok) (h : ∀ t ∈ ts, lexOK t = true) (hnl : cx.nl = countNl tl) :
+    lineOf cx.nl (Spec.render ts ++ tl) = 1 := by
+  rw [lineOf, countNl_append, render_noNl ts h, hnl]; omega
+
+/-- What follows a written token is empty or starts with a blank. -/
+theorem render_tl_head (ts : List PTok) (htl : ∀ c, tl.head? = some c → c = 32) :
+    ∀ c, (Spec.render ts ++ tl).head? = some c → c = 32 := by
+  intro c h
+  cases ts with
+  | nil => rw [render_nil, List.nil_append] at h; exact htl c h
+  | cons t ts => rw [render_cons] at h; simpa using h.symm
+
+/-- `peek` in front of a written token. -/
+theorem wpl_peek_up (cx : PCtx) (pf sf : Bool) {Q : Tk → ParseSt → Prop} {s : ParseSt} {t : PTok} {ts : List PTok}
+    (h : Up cx tl s (t :: ts)) (hm : modeOK pf sf t = true)
+    (hQ : ∀ s', Strm cx tl s' (some t) ts → Q (tkOf t) s') : wpl (peek cx pf sf) Q NoErr True s := by
+  have htok : lexOK t = true := h.ok t (by simp)
+  rcases h with h | ⟨t', ts', heq, _, h⟩
+  · unfold wpl peek
+    have hla : s.la = none := h.la_eq
+    simp only [hla]
+    obtain ⟨tok, hlex, htk, hmac⟩ := lex_tok_tl t (Spec.render ts ++ tl) pf sf htok hm (render_tl_head ts h.tl_head)
+    have hrest : s.rest = 32 :: (t.bytes ++ (Spec.render ts ++ tl)) := by
+      rw [h.rest_eq, render_cons]; simp
+    rw [h.am, hrest, hlex]
+    simp only [Nat.lt_irrefl, if_false, gt_iff_lt]
+    rw [htk]
+    have hline : tokLineOf cx.nl (32 :: (t.bytes ++ (Spec.render ts ++ tl))) = 1 := by
+      obtain ⟨c, r, hb, h1, h2⟩ := tok_first t htok
+      have h3 : countNl (t.bytes ++ (Spec.render ts ++ tl)) = countNl tl := by
+        rw [countNl_append, countNl_append, tok_noNl t htok, render_noNl ts (fun x hx => h.ok x (by simp [hx]))]; omega
+      rw [hb, List.cons_append, tokLineOf_blank _ _ _ h1 h2, ← List.cons_append, ← hb, lineOf, h3, h.nl_eq]; omega
+    refine hQ _ ⟨by simp, rfl, hmac, h.mac, fun x hx => h.ok x (by simp [hx]), h.tl_head, h.nl_eq, hline⟩
+  · cases heq
+    unfold wpl peek
+    have hla : s.la = some (tkOf t) := h.la_eq
+    simp only [hla]
+    exact hQ s h
+
+/-- `peek` at the end of the written text, when nothing follows. -/
+theorem wpl_peek_end (cx : PCtx) (pf sf : Bool) {Q : Tk → ParseSt → Prop} {s : ParseSt}
+    (h : Up cx [] s []) (hQ : ∀ s', s'.macros = [] → Q .eof s') : wpl (peek cx pf sf) Q NoErr True s := by
+  rcases h with h | ⟨t', ts', heq, _, h⟩
+  · unfold wpl peek
+    have hla : s.la = none := h.la_eq
+    simp only [hla]
+    rw [h.am, h.rest_eq, render_nil, List.append_nil, lex1_nil]
+    simp only [Nat.lt_irrefl, if_false, gt_iff_lt]
+    exact hQ _ h.mac
+  · cases heq
+
+theorem wpl_shift_up {Q : Unit → ParseSt → Prop} {s : ParseSt} {t : PTok} {ts : List PTok}
+    (h : Strm cx tl s (some t) ts) (hQ : ∀ s', Up cx tl s' ts → Q () s') : wpl shift Q NoErr True s := by
+  have hsh : shift s = PRes.ok () { s with la := none } := by
+    unfold shift
+    have hla : s.la = some (tkOf t) := h.la_eq
+    simp only [hla]
+    cases t <;> rfl
+  unfold wpl
+  rw [hsh]
+  exact hQ _ (Or.inl ⟨rfl, h.rest_eq, h.am, h.mac, h.ok, h.tl_head, h.nl_eq, h.tokl⟩)
+
+theorem wpl_curLine_strm (cx : PCtx) (hnl : cx.nl = countNl tl) {Q : Nat → ParseSt → Prop} {s : ParseSt} {la : Option PTok}
+    {ts : List PTok} (h : Strm cx tl s la ts) (hQ : Q 1 s) : wpl (curLine cx) Q NoErr True s := by
+  rw [wpl_curLine]
   have : lineOf cx.nl s.rest = 1 := by
-    rw [h.rest_eq, hnl, lineOf, render_noNl ts h.ok]
+    rw [h.rest_eq]; exact lineOf_written ts h.ok hnl
   rw [this]
   exact hQ
 
-theorem wp_curLine_up (cx : PCtx) (hnl : cx.nl = 0) {Q : Nat → ParseSt → Prop} {s : ParseSt} {ts : List PTok}
-    (h : Up s ts) (hQ : Q 1 s) : wp (curLine cx) Q NoErr True s := by
+theorem wpl_curLine_up (cx : PCtx) (hnl : cx.nl = countNl tl) {Q : Nat → ParseSt → Prop} {s : ParseSt} {ts : List PTok}
+    (h : Up cx tl s ts) (hQ : Q 1 s) : wpl (curLine cx) Q NoErr True s := by
   rcases h with h | ⟨t, ts', _, _, h⟩
-  · exact wp_curLine_strm cx hnl h hQ
-  · exact wp_curLine_strm cx hnl h hQ
+  · exact wpl_curLine_strm cx hnl h hQ
+  · exact wpl_curLine_strm cx hnl h hQ
 
 /-! Strings without `$` and `~` expand to themselves. -/
 
@@ -200,33 +246,33 @@ theorem expandStrs_plain (lm : Lim) (home : Bytes) (action : Bool) : ∀ (l : Li
 theorem state_macros_nil (s : ParseSt) (h : s.macros = []) : { s with macros := [] } = s := by
   cases s; simp_all
 
-theorem wp_expandOne_up (cx : PCtx) (action : Bool) (b : Bytes) (hb : strOK b = true) {Q : Bytes → ParseSt → Prop}
-    {s : ParseSt} {ts : List PTok} (h : Up s ts) (hQ : Q b s) : wp (expandOne cx action b) Q NoErr True s := by
+theorem wpl_expandOne_up (cx : PCtx) (action : Bool) (b : Bytes) (hb : strOK b = true) {Q : Bytes → ParseSt → Prop}
+    {s : ParseSt} {ts : List PTok} (h : Up cx tl s ts) (hQ : Q b s) : wpl (expandOne cx action b) Q NoErr True s := by
   have hm : s.macros = [] := by
     rcases h with h | ⟨_, _, _, _, h⟩ <;> exact h.mac
-  unfold wp expandOne
+  unfold wpl expandOne
   rw [hm, expandStr_plain cx.pathMax cx.home action b hb]
   simp only
   rw [← hm, show ({ s with macros := s.macros } : ParseSt) = s from by cases s; rfl]
   exact hQ
 
-theorem wp_expandAll_up (cx : PCtx) (action : Bool) (l : List Bytes) (hl : ∀ b ∈ l, strOK b = true)
-    {Q : List Bytes → ParseSt → Prop} {s : ParseSt} {ts : List PTok} (h : Up s ts) (hQ : Q l s) :
-    wp (expandAll cx action l) Q NoErr True s := by
+theorem wpl_expandAll_up (cx : PCtx) (action : Bool) (l : List Bytes) (hl : ∀ b ∈ l, strOK b = true)
+    {Q : List Bytes → ParseSt → Prop} {s : ParseSt} {ts : List PTok} (h : Up cx tl s ts) (hQ : Q l s) :
+    wpl (expandAll cx action l) Q NoErr True s := by
   have hm : s.macros = [] := by
     rcases h with h | ⟨_, _, _, _, h⟩ <;> exact h.mac
-  unfold wp expandAll
+  unfold wpl expandAll
   rw [hm, expandStrs_plain cx.pathMax cx.home action l hl]
   simp only
   rw [← hm, show ({ s with macros := s.macros } : ParseSt) = s from by cases s; rfl]
   exact hQ
 
-theorem wp_expandMac_up (action : Bool) (b : Bytes) (hb : strOK b = true) {Q : Bytes → ParseSt → Prop}
-    {s : ParseSt} {ts : List PTok} (h : Up s ts) (hQ : Q b s) : wp (expandMac action b) Q NoErr True s := by
+theorem wpl_expandMac_up (action : Bool) (b : Bytes) (hb : strOK b = true) {Q : Bytes → ParseSt → Prop}
+    {s : ParseSt} {ts : List PTok} (h : Up cx tl s ts) (hQ : Q b s) : wpl (expandMac action b) Q NoErr True s := by
   have hm : s.macros = [] := by
     rcases h with h | ⟨_, _, _, _, h⟩ <;> exact h.mac
   obtain ⟨_, _, _, h36, _, _, _⟩ := strOK_facts hb
-  unfold wp expandMac
+  unfold wpl expandMac
   rw [hm, expandMacros_plain action b [] (b.length + 1) h36 (by omega)]
   simp only [List.nil_append]
   rw [← hm, show ({ s with macros := s.macros } : ParseSt) = s from by cases s; rfl]
@@ -234,82 +280,86 @@ theorem wp_expandMac_up (action : Bool) (b : Bytes) (hb : strOK b = true) {Q : B
 
 /-! ## Small parsers -/
 
+/-- No diagnostic. -/
+abbrev NoE : Nat → ParseSt → Prop := fun _ _ => False
+
 /-- `p` reads the tokens `ts0` and returns `v`. -/
-def RT {α : Type} (p : PM α) (v : α) (ts0 : List PTok) : Prop :=
-  ∀ (s : ParseSt) (ts : List PTok), Up s (ts0 ++ ts) → wp p (fun a s' => a = v ∧ Up s' ts) NoErr True s
+def RT (cx : PCtx) (tl : Bytes) {α : Type} (p : PM α) (v : α) (ts0 : List PTok) : Prop :=
+  ∀ (s : ParseSt) (ts : List PTok), Up cx tl s (ts0 ++ ts) →
+    wpl p (fun a s' => a = v ∧ Up cx tl s' ts) NoE True s
 
-/-- Use a read-back lemma inside a `wp` goal. -/
-theorem wp_of_rt {α : Type} {p : PM α} {v : α} {ts0 ts : List PTok} {Q : α → ParseSt → Prop} {s : ParseSt}
-    (h : RT p v ts0) (hs : Up s (ts0 ++ ts)) (hQ : ∀ s', Up s' ts → Q v s') : wp p Q NoErr True s :=
-  wp_mono (h s ts hs) (fun a s' ⟨ha, hu⟩ => ha ▸ hQ s' hu) (fun _ h => h)
+/-- Use a read-back lemma inside a `wpl` goal. -/
+theorem wpl_of_rt {α : Type} {p : PM α} {v : α} {ts0 ts : List PTok} {Q : α → ParseSt → Prop} {s : ParseSt}
+    (h : RT cx tl p v ts0) (hs : Up cx tl s (ts0 ++ ts)) (hQ : ∀ s', Up cx tl s' ts → Q v s') : wpl p Q NoErr True s :=
+  wpl_mono (h s ts hs) (fun a s' ⟨ha, hu⟩ => ha ▸ hQ s' hu) (fun _ _ h => h.elim)
 
-theorem expectTk_rt (cx : PCtx) (t : PTok) (hm : modeOK false false t = true) : RT (expectTk cx (tkOf t)) () [t] := by
+theorem expectTk_rt (cx : PCtx) (t : PTok) (hm : modeOK false false t = true) : RT cx tl (expectTk cx (tkOf t)) () [t] := by
   intro s ts hs
   unfold expectTk
-  simp only [wp_bind]
-  apply wp_peek_up cx _ _ hs hm
+  simp only [wpl_bind]
+  apply wpl_peek_up cx _ _ hs hm
   intro s1 h1
-  simp only [wp_ite, if_true]
-  exact wp_shift_up h1 (fun s2 h2 => ⟨by first | trivial | rfl, h2⟩)
+  simp only [wpl_ite, if_true]
+  exact wpl_shift_up h1 (fun s2 h2 => ⟨by first | trivial | rfl, h2⟩)
 
-theorem parseStr_rt (cx : PCtx) (b : Bytes) : RT (parseStr cx) b [.str b] := by
+theorem parseStr_rt (cx : PCtx) (b : Bytes) : RT cx tl (parseStr cx) b [.str b] := by
   intro s ts hs
   unfold parseStr
-  simp only [wp_bind]
-  apply wp_peek_up cx _ _ hs rfl
+  simp only [wpl_bind]
+  apply wpl_peek_up cx _ _ hs rfl
   intro s1 h1
-  simp only [tkOf, wp_bind, wp_pure]
-  exact wp_shift_up h1 (fun s2 h2 => ⟨by first | trivial | rfl, h2⟩)
+  simp only [tkOf, wpl_bind, wpl_pure]
+  exact wpl_shift_up h1 (fun s2 h2 => ⟨by first | trivial | rfl, h2⟩)
 
 theorem parseStringBlock_rt (cx : PCtx) : ∀ (l acc : List Bytes) (fuel : Nat),
-    RT (parseStringBlock cx fuel acc) (acc ++ l) (l.map .str ++ [.rbrace]) := by
+    RT cx tl (parseStringBlock cx fuel acc) (acc ++ l) (l.map .str ++ [.rbrace]) := by
   intro l
   induction l with
   | nil =>
     intro acc fuel s ts hs
     cases fuel with
-    | zero => simp [parseStringBlock, wp, outOfFuel]
+    | zero => simp [parseStringBlock, wpl, outOfFuel]
     | succ fuel =>
       unfold parseStringBlock
-      simp only [wp_bind]
-      apply wp_peek_up cx _ _ hs rfl
+      simp only [wpl_bind]
+      apply wpl_peek_up cx _ _ hs rfl
       intro s1 h1
-      simp only [tkOf, wp_bind, wp_pure]
-      exact wp_shift_up h1 (fun s2 h2 => ⟨by simp, h2⟩)
+      simp only [tkOf, wpl_bind, wpl_pure]
+      exact wpl_shift_up h1 (fun s2 h2 => ⟨by simp, h2⟩)
   | cons b l ih =>
     intro acc fuel s ts hs
     cases fuel with
-    | zero => simp [parseStringBlock, wp, outOfFuel]
+    | zero => simp [parseStringBlock, wpl, outOfFuel]
     | succ fuel =>
       unfold parseStringBlock
-      simp only [wp_bind]
-      apply wp_peek_up cx _ _ hs rfl
+      simp only [wpl_bind]
+      apply wpl_peek_up cx _ _ hs rfl
       intro s1 h1
-      simp only [tkOf, wp_bind]
-      apply wp_shift_up h1
+      simp only [tkOf, wpl_bind]
+      apply wpl_shift_up h1
       intro s2 h2
-      exact wp_of_rt (ih (acc ++ [b]) fuel) h2 (fun s3 h3 => ⟨by simp, h3⟩)
+      exact wpl_of_rt (ih (acc ++ [b]) fuel) h2 (fun s3 h3 => ⟨by simp, h3⟩)
 
-theorem parseStrings_rt (cx : PCtx) (l : List Bytes) (fuel : Nat) : RT (parseStrings cx fuel) l (strsToks l) := by
+theorem parseStrings_rt (cx : PCtx) (l : List Bytes) (fuel : Nat) : RT cx tl (parseStrings cx fuel) l (strsToks l) := by
   intro s ts hs
   unfold parseStrings
-  simp only [wp_bind]
+  simp only [wpl_bind]
   simp only [strsToks, List.append_assoc, List.cons_append, List.nil_append] at hs
-  apply wp_peek_up cx _ _ hs rfl
+  apply wpl_peek_up cx _ _ hs rfl
   intro s1 h1
-  simp only [tkOf, wp_bind]
-  apply wp_shift_up h1
+  simp only [tkOf, wpl_bind]
+  apply wpl_shift_up h1
   intro s2 h2
-  have := parseStringBlock_rt cx l [] fuel
-  refine wp_of_rt this (by simpa using h2) (fun s3 h3 => ⟨by simp, h3⟩)
+  have := parseStringBlock_rt (tl := tl) cx l [] fuel
+  refine wpl_of_rt this (by simpa using h2) (fun s3 h3 => ⟨by simp, h3⟩)
 
-theorem parsePattern_rt (cx : PCtx) (p : Pat) : RT (parsePattern cx) p [.pat p] := by
+theorem parsePattern_rt (cx : PCtx) (p : Pat) : RT cx tl (parsePattern cx) p [.pat p] := by
   intro s ts hs
   unfold parsePattern
-  simp only [wp_bind]
-  apply wp_peek_up cx _ _ hs rfl
+  simp only [wpl_bind]
+  apply wpl_peek_up cx _ _ hs rfl
   intro s1 h1
-  simp only [tkOf, wp_bind, wp_pure]
-  exact wp_shift_up h1 (fun s2 h2 => ⟨by first | trivial | rfl, h2⟩)
+  simp only [tkOf, wpl_bind, wpl_pure]
+  exact wpl_shift_up h1 (fun s2 h2 => ⟨by first | trivial | rfl, h2⟩)
 
 end Mdsort.Proofs.Conf
